@@ -78,7 +78,9 @@ CHECKS = {
             "then it is re-run once per enumerated fault (quick: a stratified sample of sites with the commit phase over-weighted; thorough: every seam event x every applicable fault kind "
             "(errno before the effect, short write, failing close), every computation step, every operation boundary for user exceptions, sampled KeyboardInterrupts at traced lines, plus a second fault during the re-run). "
             "After each faulted run an independent archive reader decides: session raised -> target path absent / logically identical to its previous complete content; fault absorbed -> equals the fault-free result; "
-            "then one clean re-run on the same path must succeed and reproduce the fault-free result (bounded liveness). Enumeration per workload is complete in the thorough tier; workloads themselves are sampled."
+            "then one clean re-run on the same path must succeed and reproduce the fault-free result (bounded liveness). Enumeration per workload is complete in the thorough tier; workloads themselves are sampled. "
+            "Workloads also include EKO.deepcopy and ekobox.utils.ekos_product (in place / to a new path), and 30% run with the temp area 'on another file system' (cross-directory renames fail with EXDEV). "
+            "A second stage runs multi-session store histories (create / puts / metadata, parts, recipe edits / close / reopen ...) twice - fault-free to record the trace, then with 1-3 faults drawn from it: an operation failing through an injected fault kills its session, the user restarts, and at every such point the archive must hold exactly the last committed content (crash recovery across sessions, checked with the persistent-map model and the independent reader)."
         ),
         note="Faults land at seam boundaries and traced Python lines, not inside C calls; no power-loss model (eko never fsyncs); stub physics in most workloads; interrupts that land after the final os.replace are accepted as 'committed'.",
         design="DESIGN.md section 5 (C38)",
